@@ -379,7 +379,7 @@ class E2Check:
         rule = (f"programs = the realistic corpus (specs/realistic, 7 files) + enumerated single-struct specs over "
                 f"{len(G.TEMPLATES)} instruction templates x {len(G.POSITIONS)} positions: all sequences of length 1"
                 + (f" and a seed-{self.seed} sample of 1000 of length 2" if self.tier == "quick"
-                   else " and 2, and a seeded sample of 1500 of length 3")
+                   else f", every pair of the {len(G.CORE)} core templates, a seeded sample of 10000 pairs of all templates and of 2000 triples")
                 + "; a program counts when xmlsem finds it well-formed and non-degenerate and the generator accepts it; "
                   "per program every emitted class is verified for all values")
         cov = {
